@@ -32,7 +32,7 @@ ASSUMPTIONS = [
 ]
 
 INTERNAL = (AssertionError, NameError, KeyError, IndexError, AttributeError, RecursionError, UnboundLocalError, NotImplementedError)
-EDITS = ["update_axis_dropped", "extra_operand", "dim_changed", "dim_dropped", "size_contradicted", "size_missing", "out_renamed", "out_dropped", "brackets_added", "brackets_removed", "brackets_permuted",
+EDITS = ["update_axis_dropped", "extra_operand", "dot_third_occurrence", "dim_changed", "dim_dropped", "size_contradicted", "size_missing", "out_renamed", "out_dropped", "brackets_added", "brackets_removed", "brackets_permuted",
          "out_duplicated", "plus_outside_id", "tensor_removed", "tensor_added", "string_tensor", "float_size", "unbalanced", "second_arrow", "illegal_char"]  # fmt: skip
 
 
@@ -257,6 +257,17 @@ def derive_l2(rc, arrays):
         outs[0] = drop(outs[0])
         desc = X.p_desc(ins, outs)
         return res((E.SemanticError,), desc=desc)
+    if edit == "dot_third_occurrence":
+        if op != "dot":
+            return None
+        con = list(dict.fromkeys(l[1] for e in ins for l in _leaves(e, True) if l[0] == "ax" and "." not in l[1]))
+        if not con:
+            return None
+        b = con[rnd[0] % len(con)]
+        ins.append([["br", [["ax", b]]]])
+        args.append(np.ones((env[b],)))
+        desc = X.p_desc(ins, outs)
+        return res(ANY, desc=desc)
     if edit == "extra_operand":
         if op not in G.ELEMENTWISE_BIN:
             return None
